@@ -290,9 +290,31 @@ def run(ctx):
                     else:
                         return e
             names = {uncast(sz).show(), src.show()}
+            narrow = None
             for c in conds:
                 if c.kind != 'cmp':
                     continue
+                # `prefix + k <= limit` bounds the prefix too — provided the sum is formed in a type wider than the prefix
+                # (widened first). Formed in the prefix's own 32-bit type it overflows for prefixes near u32::MAX: a debug
+                # build panics inside recovery, a release build wraps to a small number and passes the bound.
+                for side, oside, ops in ((c.lhs, c.rhs, ('Le', 'Lt')), (c.rhs, c.lhs, ('Ge', 'Gt'))):
+                    st_ = side.strip()
+                    while st_.k == 'cast' and str(st_.a).startswith('IntToInt'):
+                        st_ = st_.b.strip()
+                    if st_.k == 'field' and st_.b in ('::0',) and st_.a.strip().k == 'bin':
+                        st_ = st_.a.strip()
+                    if st_.k == 'bin' and st_.a in ('Add', 'AddWithOverflow', 'AddUnchecked') and c.op in ops:
+                        for x_, y_ in ((st_.b, st_.c), (st_.c, st_.b)):
+                            if y_.const_value() is None:
+                                continue
+                            widened = x_.strip().k == 'cast' and str(x_.strip().a).startswith('IntToInt') and str(x_.strip().c) in ('u64', 'usize', 'u128', 'i64', 'i128')
+                            if uncast(x_).show() in names:
+                                if widened:
+                                    cv_ = uncast(oside).const_value()
+                                    if not (isinstance(cv_, int) and cv_ >= 0xFFFFFFFF):
+                                        bounded = True
+                                else:
+                                    narrow = c
                 l, r = uncast(c.lhs).show(), uncast(c.rhs).show()
                 other = None
                 if l in names and c.op in ('Le', 'Lt'):
@@ -311,8 +333,11 @@ def run(ctx):
                 bounded = True      # min(x, bound) at the top of the size expression (a min deeper inside bounds something else)
             ctx.ob('ALLOC-BOUND', 'alloc@%s#%d' % (b.id, ordn), bounded, cs.where(),
                    'buffer of %s bytes (a length read from the file) is allocated %s' % (
-                       sz.brief(80), 'under an upper bound' if bounded else 'with NO upper bound: a damaged length field requests an arbitrary amount of memory (or panics with capacity overflow)'), entry=b.root)
-    ctx.floor('ALLOC-BOUND', 3)
+                       sz.brief(80), 'under an upper bound' if bounded else
+                       ('behind a bound computed as `prefix + constant` in the prefix\'s own 32-bit type (%s): for prefixes near u32::MAX the sum overflows — a debug build '
+                        'panics inside recovery, a release build wraps and allocates ~4 GiB' % narrow.brief(80) if narrow is not None else
+                        'with NO upper bound: a damaged length field requests an arbitrary amount of memory (or panics with capacity overflow)')), entry=b.root)
+    ctx.floor('ALLOC-BOUND', 2)
 
     # ------------------------------------------------------------------ 5. skipped records are counted
     for b in replay:
